@@ -6,6 +6,27 @@ import os
 VERIF = os.path.dirname(os.path.dirname(os.path.abspath(__file__)))
 
 CHECKS = {
+    "C01": dict(
+        technique="TLA+ specs KCenters/PAM/Hybrid model-checked with TLC; TLC trace validation (Trace_Cluster.tla) of recorded runs of every clustering entry point on TLC-enumerated inputs",
+        text="TLC checks SelfConsistent (centers are the frames at their indices, reported distance = metric distance to the assigned "
+             "center, no center strictly closer, labels in range, center frames carry their own label at distance 0) after every "
+             "k-centers iteration, every PAM proposal and at hand-over of k-hybrid, on the step-level transcription of the three "
+             "algorithms for every input in scope. Every entry point (kcenters/kmedoids/hybrid, function and estimator, cold and warm "
+             "start, 5 dtypes, euclidean/manhattan/callable metric) is then run on the TLC-enumerated inputs with the iteration and "
+             "PAM-update functions wrapped; each recorded intermediate and final state is validated by TLC against the actions and "
+             "SelfConsistent; inputs are compared bitwise before/after.",
+        note="integer-lattice data of distinct points (exact L1/Linf, squared L2); exhaustive within N<=4..5 points, K<=3..4; seeded random sets up to 40 points in the thorough tier; ties may be labelled either way",
+        ref="6/C01"),
+    "C02": dict(
+        technique="TLA+ spec KCenters.tla model-checked with TLC (greedy guard, RadiusMonotone, TwoApprox vs brute-force optimum, StopExact, ShortcutExact); TLC trace validation of every iteration of the real k-centers",
+        text="TLC checks on every data set / configuration in scope that any-farthest-frame greedy steps never widen the radius, end within "
+             "twice the brute-force optimum over all k-subsets, stop exactly when the guard (count reached or radius <= cutoff) fails, and "
+             "that the triangle-inequality shortcut yields the same distances as the plain update (metric axioms checked, not assumed). "
+             "The real kcenters()/KCenters.fit() is run on every enumerated (data, metric, n_clusters, cutoff, shortcut, init_centers) with "
+             "_kcenters_iteration wrapped; each recorded iteration must be an instance of Iterate (chosen frame in the arg-max set, guard "
+             "true, distances = plain update, labels admissible), the final result must falsify the guard.",
+        note="as C01; 2-approximation is relative to the optimum with centers among the frames; the estimator form has no shortcut switch",
+        ref="6/C02"),
     "C03": dict(
         technique="TLA+ spec (Counts.tla) model-checked with TLC; spec->code replay of every TLC-enumerated input",
         text="TLC checks on every input in scope that the mask/slice/stack pipeline transcribed from the code equals "
@@ -25,6 +46,17 @@ CHECKS = {
              "is run in every container, its outputs recorded as scaled integers and validated by TLC against MLE.tla.",
         note="exhaustive within n<=3, entries <=3 (quick) / <=4,<=2 (thorough); sparse arrays (csr_array, ...) are outside the property's quantifier; stationarity only where the chain is strongly connected",
         ref="6/C04"),
+    "C09": dict(
+        technique="TLA+ specs PAM.tla/Hybrid.tla model-checked with TLC over all accept/reject histories; TLC trace validation of every proposal (from DEBUG records) and sweep of the real k-medoids / k-hybrid",
+        text="TLC explores every sequence of proposals (members, or explicit proposal lists incl. frames of other clusters) with "
+             "accept-iff-not-worse / reject on the three-branch reassignment transcribed from _kmedoids_pam_update and checks CostMonotone, "
+             "KConstant, SelfConsistent, CandidateConsistent, NonEmptyClusters, HybridNoWorse. The real kmedoids()/KMedoids/hybrid()/KHybrid "
+             "are run on TLC-enumerated (data, medoids, proposal list|seed, sweeps); every recorded proposal (cluster, old medoid, proposal, "
+             "old cost, new cost, accepted) must be Propose;Reassign;Accept|Reject from the specification's current state with exactly the "
+             "specification's costs, every sweep result must equal the specification's state, k-hybrid's result must not exceed the cost at "
+             "hand-over, and seeded / explicit-proposal runs are executed twice and must coincide.",
+        note="integer-lattice data; costs are exact integers; if the DEBUG records are reworded the check degrades to sweep granularity (reported in evidence), never to a false alarm",
+        ref="6/C09"),
     "C12": dict(
         technique="TLC trace validation (MLE.tla) of recorded runs of both estimator implementations on TLC-enumerated inputs",
         text="Every strongly connected count matrix enumerated by TLC in scope (plus seeded random real-valued and strongly "
